@@ -105,3 +105,22 @@ V('C11', 'module-block-resets-documents', 'edb/schema/ddl.py', 'edb.schema.ddl.a
   '            documents.setdefault(new_mod, [])\n', '            documents[new_mod] = []\n', 'C11.R9', 'documents-only-extended')
 V('C11', 'lint-fork-copies-wrong-field', T, TM + '_fork_context',
   '        pointers=ctx.pointers,\n', '        pointers=ctx.anchors,\n', 'C11.L', 'slips:like-for-like-copies')
+V('C11', 'union-right-operand-not-a-dependency', D, M + '_get_hard_deps',
+  '        deps |= _get_hard_deps(expr.right, ctx=ctx)\n', '        deps |= _get_hard_deps(expr.left, ctx=ctx)\n', 'C11.R10', '_get_hard_deps:TypeOp.right')
+V('C11', 'lint-duplicated-statement', D, M + '_get_hard_deps',
+  '        deps |= _get_hard_deps(expr.right, ctx=ctx)\n', '        deps |= _get_hard_deps(expr.left, ctx=ctx)\n', 'C11.L', 'slips:duplicated-statement')
+V('C11', 'subtypes-not-dependencies', D, M + '_get_hard_deps',
+  '''            for subtype in expr.subtypes:
+                deps |= _get_hard_deps(subtype, ctx=ctx)
+''', '''            pass
+''', 'C11.R10', '_get_hard_deps:TypeName.subtypes')
+V('C11', 'created-modules-preseeded', D, M + 'sdl_to_ddl',
+  '    created_modules = set()\n', '    created_modules = set(documents)\n', 'C11.R10', 'created_modules:starts-empty')
+V('C11', 'module-prefix-loop-skips-self', D, M + 'sdl_to_ddl',
+  "            n = '::'.join(parts[:i + 1])\n", "            n = '::'.join(parts[:i])\n", 'C11.R10', 'enclosing-first')
+V('C11', 'name-guess-hard-dependency', T, TM + 'trace_Path',
+  '''                        # Do a weak dependency on anything with the same name.
+                        ctx.weak_refs.update(ctx.pointers.get(pname, ()))''', '''                        # Do a weak dependency on anything with the same name.
+                        ctx.refs.update(ctx.pointers.get(pname, ()))''', 'C11.R10', 'trace_Path:name-guess')
+V('C11', 'neg-created-modules-annotated', D, M + 'sdl_to_ddl',
+  '    created_modules = set()\n', '    created_modules: set[str] = set()\n', None)
